@@ -463,10 +463,10 @@ Example setup_nonvacuous :
 Proof. eexists. split; [vm_compute; reflexivity|]. split; reflexivity. Qed.
 
 (* ---- RepeatedTimer ---------------------------------------------------------------- *)
-Lemma timer_ops_run w o t args tr sched :
+Lemma timer_ops_run w o t args tr during :
   kern_run w o t args = Some tr ->
-  timer_ops sched tr =
-  if 0 <? o_interval o then [TCreate] ++ map TFire sched ++ [TStopRt] else map TFire sched.
+  timer_ops during tr =
+  if 0 <? o_interval o then [TCreate] ++ map TThread during ++ [TStopRt] else map TThread during.
 Proof.
   unfold kern_run. intros H.
   destruct (o_setup o) as [s|].
@@ -483,71 +483,98 @@ Proof.
       destruct (builtin_eff o), (0 <? o_interval o); cbn; rewrite ?app_nil_r; reflexivity.
 Qed.
 
-Definition one_live : rtimer := mkrt true 1.
-
-Lemma fires_two sched :
-  fold_left tstep (map TFire sched) (mkts [one_live; one_live] (Some 1%nat))
-  = mkts [one_live; one_live] (Some 1%nat).
+(* re-arm first: while the timer is armed, whatever the timer threads do, exactly
+   the latest Timer is pending (and it is the one stop() cancels) ... *)
+Lemma armed_inv (hs : list thop) : forall d,
+  exists d', fold_left (tstep RearmFirst) (map TThread hs) (mkts [mkrt true 1 d] (Some 0%nat))
+             = mkts [mkrt true 1 d'] (Some 0%nat).
 Proof.
-  induction sched as [|i t IH]; [reflexivity|]. cbn [map fold_left].
-  replace (tstep (mkts [one_live; one_live] (Some 1%nat)) (TFire i))
-    with (mkts [one_live; one_live] (Some 1%nat)); [exact IH|].
-  destruct i as [|[|[|j]]]; reflexivity.
+  induction hs as [|h t IH]; intros d; [exists d; reflexivity|].
+  cbn [map fold_left].
+  destruct h as [[|i]|[|i]|[|i]]; cbn [tstep upd ts_objs ts_rt];
+    unfold rt_fire, rt_fire_start, rt_dump_end, rt_start; cbn;
+    first [apply IH | destruct d; apply IH].
 Qed.
 
-Lemma fires_one sched :
-  fold_left tstep (map TFire sched) (mkts [one_live] (Some 0%nat)) = mkts [one_live] (Some 0%nat).
+(* ... and once stopped nothing is pending and nothing re-arms *)
+Lemma stopped_inv (hs : list thop) : forall d,
+  exists d', fold_left (tstep RearmFirst) (map TThread hs) (mkts [mkrt false 0 d] (Some 0%nat))
+             = mkts [mkrt false 0 d'] (Some 0%nat).
 Proof.
-  induction sched as [|i t IH]; [reflexivity|]. cbn [map fold_left].
-  replace (tstep (mkts [one_live] (Some 0%nat)) (TFire i)) with (mkts [one_live] (Some 0%nat)); [exact IH|].
-  destruct i as [|[|j]]; reflexivity.
+  induction hs as [|h t IH]; intros d; [exists d; reflexivity|].
+  cbn [map fold_left].
+  destruct h as [[|i]|[|i]|[|i]]; cbn [tstep upd ts_objs ts_rt];
+    unfold rt_fire, rt_fire_start, rt_dump_end, rt_start; cbn;
+    first [apply IH | destruct d; apply IH].
 Qed.
 
-Lemma fires_none sched :
-  fold_left tstep (map TFire sched) (mkts [] None) = mkts [] None.
+Lemma settle_stopped d : settle RearmFirst (mkrt false 0 d) = mkrt false 0 0.
 Proof.
-  induction sched as [|i t IH]; [reflexivity|]. cbn [map fold_left].
-  replace (tstep (mkts [] None) (TFire i)) with (mkts [] None); [exact IH|]. reflexivity.
+  unfold settle. cbn [rt_dumping].
+  assert (forall n d, Nat.iter n (rt_dump_end RearmFirst) (mkrt false 0 d) = mkrt false 0 (d - n)) as H.
+  { induction n as [|n IH]; intros d0.
+    - cbn. f_equal. lia.
+    - change (Nat.iter (S n) (rt_dump_end RearmFirst) (mkrt false 0 d0))
+        with (rt_dump_end RearmFirst (Nat.iter n (rt_dump_end RearmFirst) (mkrt false 0 d0))).
+      rewrite IH. unfold rt_dump_end. cbn [rt_dumping rt_running rt_pending].
+      destruct (d0 - n)%nat eqn:E; f_equal; lia. }
+  rewrite H. f_equal. lia.
 Qed.
 
-(* the repaired bookkeeping: creating the timer once and stopping it leaves nothing
-   behind, whatever fired in between *)
-Theorem single_timer_stops sched :
-  live_threads (trun ([TCreate] ++ map TFire sched ++ [TStopRt])) = 0%nat.
+Lemma none_inv ord (hs : list thop) :
+  fold_left (tstep ord) (map TThread hs) (mkts [] None) = mkts [] None.
+Proof.
+  induction hs as [|h t IH]; [reflexivity|]. cbn [map fold_left].
+  destruct h as [i|i|i]; cbn [tstep upd ts_objs ts_rt]; destruct i; exact IH.
+Qed.
+
+(* one construction, one stop: whatever the timer threads do before and after the
+   stop - including a dump that is still in flight when main stops the timer - no
+   Timer is pending once the dumps in flight have returned *)
+Theorem single_timer_stops (during after : list thop) :
+  live_threads RearmFirst (trun RearmFirst ([TCreate] ++ map TThread during ++ [TStopRt] ++ map TThread after)) = 0%nat.
 Proof.
   unfold trun. rewrite !fold_left_app. cbn [fold_left tstep app length ts_objs].
-  change (mkts [rt_new] (Some 0%nat)) with (mkts [one_live] (Some 0%nat)).
-  rewrite fires_one. reflexivity.
+  change rt_new with (mkrt true 1 0).
+  destruct (armed_inv during 0) as [d Hd]. rewrite Hd.
+  cbn [fold_left tstep ts_rt ts_objs upd]. unfold rt_stop. cbn [rt_pending rt_dumping pred].
+  destruct (stopped_inv after d) as [d' Hd']. rewrite Hd'.
+  unfold live_threads. cbn [ts_objs fold_right]. rewrite settle_stopped. reflexivity.
 Qed.
 
-(* what the code did before the repair (two constructions, the local `rt` rebound,
-   one stop): exactly one Timer is left for every schedule - kept so that a
-   regression is explained by a theorem *)
-Theorem double_creation_leaks sched :
-  live_threads (trun ([TCreate; TCreate] ++ map TFire sched ++ [TStopRt])) = 1%nat.
-Proof.
-  unfold trun. rewrite !fold_left_app. cbn [fold_left tstep app length ts_objs].
-  change (mkts [rt_new; rt_new] (Some 1%nat)) with (mkts [one_live; one_live] (Some 1%nat)).
-  rewrite fires_two. reflexivity.
-Qed.
+(* with the other order the same interleaving leaves a Timer behind: the dump in
+   flight re-arms the chain after stop() cancelled a Timer that had already fired *)
+Theorem dump_first_leaks :
+  live_threads DumpFirst (trun DumpFirst [TCreate; TThread (HFireStart 0); TStopRt; TThread (HDumpEnd 0)]) = 1%nat
+  /\ live_threads DumpFirst (trun DumpFirst [TCreate; TThread (HFireStart 0); TStopRt]) = 1%nat
+  /\ live_threads DumpFirst (trun DumpFirst [TCreate; TThread (HFire 0); TThread (HFire 0); TStopRt]) = 0%nat.
+Proof. repeat split. Qed.
+
+(* what the code did before fix 204c2e5 (two constructions, the local `rt` rebound,
+   one stop): one Timer is left - kept so that a regression is explained *)
+Theorem double_creation_leaks :
+  live_threads RearmFirst (trun RearmFirst [TCreate; TCreate; TThread (HFire 0); TThread (HFire 1); TStopRt]) = 1%nat
+  /\ live_threads RearmFirst (trun RearmFirst [TCreate; TCreate; TStopRt]) = 1%nat.
+Proof. split; reflexivity. Qed.
 
 (* "kernprof terminates promptly": for EVERY option record (with or without -i),
-   target, argument list and schedule of timer firings during the program, no
-   Timer thread of a RepeatedTimer is pending when main has returned *)
-Theorem no_helper_thread_after_run w o t args tr sched :
-  kern_run w o t args = Some tr -> live_after_main sched tr = 0%nat.
+   target, argument list and EVERY behaviour of the timer threads during the
+   program and after the stop, no Timer thread is pending when main has returned
+   and the dumps in flight have finished *)
+Theorem no_helper_thread_after_run w o t args tr during after :
+  kern_run w o t args = Some tr -> live_after_main order_in_code during after tr = 0%nat.
 Proof.
-  intros H. unfold live_after_main. rewrite (timer_ops_run _ _ _ _ _ sched H).
+  intros H. unfold live_after_main, order_in_code. rewrite (timer_ops_run _ _ _ _ _ during H).
   destruct (0 <? o_interval o).
-  - apply single_timer_stops.
-  - unfold trun. rewrite fires_none. reflexivity.
+  - rewrite <- !app_assoc. apply single_timer_stops.
+  - unfold trun. rewrite fold_left_app, !none_inv. reflexivity.
 Qed.
 
 Example timer_nonvacuous :
   exists tr, kern_run w_ex o_interval1 (TScript (rel ["prog.py"])) [] = Some tr
-             /\ timer_ops [0%nat; 0%nat] tr = [TCreate; TFire 0; TFire 0; TStopRt]
-             /\ live_threads (trun [TCreate; TFire 0; TFire 0]) = 1%nat
-             /\ live_after_main [0%nat; 0%nat] tr = 0%nat.
+             /\ timer_ops [HFire 0; HFireStart 0] tr = [TCreate; TThread (HFire 0); TThread (HFireStart 0); TStopRt]
+             /\ live_threads RearmFirst (trun RearmFirst [TCreate; TThread (HFire 0); TThread (HFireStart 0)]) = 1%nat
+             /\ live_after_main order_in_code [HFire 0; HFireStart 0] [HDumpEnd 0] tr = 0%nat.
 Proof. eexists. split; [vm_compute; reflexivity|]. repeat split. Qed.
 
 (* ---- executable comparison used by the case shards --------------------------------- *)
@@ -577,15 +604,19 @@ Definition case_ok (w : world) (o : opts) (t : target) (args : list string)
    end).
 
 (* in-process observation of the RepeatedTimer bookkeeping: how many were created
-   and stopped, how many non-daemon threads are alive when main has returned *)
+   and stopped, how many firings completed during the program, how many dumps were
+   in flight when main stopped the timer, and how many non-daemon threads are alive
+   once those dumps have returned *)
 Definition is_tcreate (e : event) : bool := match e with ETimerCreate => true | _ => false end.
 Definition is_tstop (e : event) : bool := match e with ETimerStop => true | _ => false end.
 Definition timer_case_ok (w : world) (o : opts) (t : target) (args : list string)
-           (created stopped live fired : Z) : bool * bool :=
+           (created stopped live fired inflight : Z) : bool * bool :=
   match kern_run w o t args with
   | None => (false, false)
   | Some tr =>
+      let during := repeat (HFire 0) (Z.to_nat fired) ++ repeat (HFireStart 0) (Z.to_nat inflight) in
+      let after := repeat (HDumpEnd 0) (Z.to_nat inflight) in
       ((count_ev is_tcreate tr =? created) && (count_ev is_tstop tr =? stopped)
-       && (Z.of_nat (live_after_main (repeat 0%nat (Z.to_nat fired)) tr) =? live),
+       && (Z.of_nat (live_after_main order_in_code during after tr) =? live),
        live =? 0)
   end.
